@@ -29,7 +29,9 @@ Lemma next_instr_push (d r : bytes) :
 Proof.
   intros H. rewrite push_slice_small by exact H. cbn [app next_instr].
   unfold OP_PUSHDATA1. destruct (N.ltb_spec (lenN d) 0x4c) as [_|C]; [|unfold lenN in C; lia].
-  unfold take_push, lenN. rewrite Nat2N.id, take_app by reflexivity. reflexivity.
+  unfold take_push.
+  destruct (N.ltb_spec (lenN (d ++ r)) (lenN d)) as [C|_]; [unfold lenN in C; rewrite app_length in C; lia|].
+  unfold lenN. rewrite Nat2N.id, take_app by reflexivity. reflexivity.
 Qed.
 
 Lemma expect_op_hit (op : N) (r : bytes) : 0x4e < op -> expect_op op (op :: r) = Some r.
@@ -123,7 +125,9 @@ Proof.
     destruct (read_write_scriptint n) as [Hr Hl]; [lia|exact Hn|].
     unfold expect_number. rewrite next_instr_push by lia. rewrite Hr. reflexivity.
   - (* zero: OP_0 pushes the empty string *)
-    assert (n = 0) by lia. subst n. cbn. reflexivity.
+    assert (n = 0) by lia. subst n. cbn [N.eqb app].
+    unfold expect_number, next_instr, take_push. cbn [N.ltb N.compare OP_PUSHDATA1].
+    destruct (N.ltb_spec (lenN r) 0) as [C|_]; [lia|]. reflexivity.
   - lia.
 Qed.
 
